@@ -27,6 +27,14 @@ static bool c09_equal(const MVal& m, const MVal& y, std::string& why, const std:
     if (g == (double)lo || g == (double)hi) return true;
     return fail("double " + describe(m) + " decoded as " + describe(y) + ", not a neighbouring float");
   }
+#if !ARDUINOJSON_USE_LONG_LONG
+  // 32-bit integer storage (on this LP64 host JsonInteger is still 64-bit wide, so the range is enforced by the store):
+  // a value outside int32 decodes to itself (unsigned formats up to 2^32-1) or to null, never to another number
+  if (m.k == MVal::Int && !(m.neg ? m.mag <= 0x80000000ull : m.mag <= 0x7fffffffull)) {
+    if (y.k == MVal::Null || (y.k == MVal::Int && y.neg == m.neg && y.mag == m.mag)) return true;
+    return fail("integer " + describe(m) + " outside the configured 32-bit range decoded as " + describe(y, 60) + " (expected the exact value or null)");
+  }
+#endif
   if (m.k != y.k) return fail("kind differs: expected " + describe(m, 60) + " got " + describe(y, 60));
   switch (m.k) {
     case MVal::Arr:
